@@ -15,7 +15,7 @@ CLAUSE = {1: "first-read-default", 2: "read-notified", 3: "default-method-twice"
           9: "default-not-stored", 10: "harness-digest", 11: "read-raised", 20: "declared-class-tables"}
 CONTAINER = ("KListCopy", "KDictCopy", "KTraitList", "KTraitDict", "KTraitSet")
 KINDS = ["KConst", "KListCopy", "KDictCopy", "KTraitList", "KTraitDict", "KTraitSet", "KFactory", "KMethod",
-         "KTuple", "KUnion"]
+         "KTuple", "KUnion", "KMethodInt"]
 
 
 # ---- declared class tables (what the configuration says; compared in Coq with what the driver observed)
@@ -47,6 +47,8 @@ def declared(case):
         elif o["how"] == "list":
             rows1.append([n, tdef("KTraitList", o["content"], 0, nxt, d["nnotif"], d["static"])])
             nxt += 1
+        elif d["kind"] in ("KConst", "KMethodInt"):
+            rows1.append([n, tdef("KMethodInt", o["content"], 0, 0, d["nnotif"], d["static"])])
         else:
             rows1.append([n, tdef("KMethod", o["content"], 0, 0, d["nnotif"], d["static"])])
     rows1.append([-1, ta])
@@ -100,6 +102,8 @@ def to_term(case, obs):
 def trait_kind(case, op):
     if op[0] in ("NewInst", "Introspect"):
         return "-"
+    if op[2] == -2:
+        return "anytrait"
     for t in case["traits"]:
         if t["name"] == op[2]:
             return t["kind"]
@@ -132,7 +136,7 @@ def nontrivial(case, obs):
 def gen_content(rnd, kind, like=None):
     if like is not None and rnd.random() < 0.25:
         return list(like)
-    if kind == "KConst":
+    if kind in ("KConst", "KMethodInt"):
         return [rnd.randint(0, 9)]
     if kind in ("KDictCopy", "KTraitDict"):
         ks = rnd.sample(range(1, 9), rnd.randint(0, 3))
@@ -158,8 +162,10 @@ def gen_case(rnd, ctx, maxlen):
     sub = []
     for t in traits:
         r = rnd.random()
-        if t["kind"] == "KConst" and r < 0.5:
+        if t["kind"] == "KConst" and r < 0.4:
             sub.append(dict(name=t["name"], how="const", content=gen_content(rnd, "KConst")))
+        elif t["kind"] == "KConst" and r < 0.7:
+            sub.append(dict(name=t["name"], how="method", content=gen_content(rnd, "KConst")))
         elif t["kind"] == "KTraitList" and r < 0.35:
             sub.append(dict(name=t["name"], how="list", content=gen_content(rnd, "KTraitList")))
         elif t["kind"] in ("KTraitList", "KMethod") and r < 0.7:
@@ -177,7 +183,7 @@ def gen_case(rnd, ctx, maxlen):
         if n in shadow[i]:
             return shadow[i][n]
         if cls_of[i] == 1 and n in over and over[n]["how"] == "method":
-            return "KMethod"
+            return "KMethodInt" if traits[n]["kind"] in ("KConst", "KMethodInt") else "KMethod"
         return traits[n]["kind"] if n < len(traits) else "KConst"
 
     def default_content(i, n):
@@ -204,6 +210,9 @@ def gen_case(rnd, ctx, maxlen):
         elif r < 0.78:
             hid[0] += 1
             op = ["Register", i, n, hid[0], rnd.random() < 0.5]
+            if rnd.random() < 0.25:
+                op = ["Register", i, -2, hid[0], False]        # on_trait_change(handler): every trait of the object
+                ctx.count("register:object-level")
         elif r < 0.86:
             op = ["Introspect", i, rnd.randint(0, 4)]
         elif r < 0.95:
@@ -243,17 +252,17 @@ def gen_case(rnd, ctx, maxlen):
 def all_kinds_case(static):
     traits = [dict(name=n, kind=k, content=c, scalar=3, static=static) for n, (k, c) in enumerate([
         ("KConst", [5]), ("KListCopy", [1, 2]), ("KDictCopy", [1, 1]), ("KTraitList", [1, 2]), ("KTraitDict", [1, 1]),
-        ("KTraitSet", [1]), ("KFactory", [9]), ("KMethod", [7]), ("KTuple", [4]), ("KUnion", [6])])]
+        ("KTraitSet", [1]), ("KFactory", [9]), ("KMethod", [7]), ("KTuple", [4]), ("KUnion", [6]), ("KMethodInt", [4])])]
     sub = [dict(name=0, how="const", content=[6]), dict(name=3, how="list", content=[3]),
            dict(name=7, how="method", content=[8])]
     ops = [["NewInst", 0], ["NewInst", 1], ["NewInst", 0]]
-    for n in range(10):
+    for n in range(11):
         ops += [["Read", 0, n], ["Read", 0, n], ["Mutate", 0, n, 100 + n], ["Read", 1, n], ["Mutate", 1, n, 200 + n]]
     ops += [["Register", 0, 3, 1, False], ["Register", 1, 7, 2, True], ["Assign", 0, 3, [1], 0], ["Assign", 1, 7, [2], 0],
-            ["Assign", 1, 0, [6], 0], ["Assign", 1, 0, [7], 0],
+            ["Assign", 1, 0, [6], 0], ["Assign", 1, 0, [7], 0], ["Assign", 2, 10, [4], 0], ["Assign", 2, 10, [5], 0],
             ["AddTrait", 0, 50, dict(kind="KTraitList", content=[4, 4])], ["AddTrait", 0, 0, dict(kind="KConst", content=[77])],
             ["Read", 0, 50], ["Read", 0, 0], ["NewInst", 1], ["NewInst", 0]]
-    for n in range(10):
+    for n in range(11):
         ops += [["Read", 2, n], ["Read", 3, n], ["Read", 4, n], ["Read", 4, n]]
     return dict(traits=traits, sub=sub, ops=ops)
 
@@ -287,14 +296,14 @@ def run(ctx):
         "side (_change_accepted, add_trait, on_trait_change, observe) are hand-modelled in C10/Model.v and tied by the "
         "correspondence; what a default method/factory returns and handler registrations are echoed configuration",
     ]
-    ctx.cov["rule"] = ("random class configurations (2-6 traits over all 10 default kinds, optional static handlers, a "
-                       "subclass overriding constants / list defaults / adding _name_default methods) x interleaved "
+    ctx.cov["rule"] = ("random class configurations (2-6 traits over all 11 default kinds, optional static handlers, a "
+                       "subclass overriding constants / list defaults / adding _name_default methods over list and Int traits) x interleaved "
                        "histories on 2-5 instances of both classes (read, assign, in-place mutation, on_trait_change / "
                        "observe registration, add_trait new and shadowing, instances created mid-history), ending with "
                        "double reads on the last instance; a case is non-trivial if >= 2 instances exist and some step "
                        "returns a container object; distinct = distinct (configuration, history)")
     rnd = random.Random(ctx.seed)
-    n, maxlen = (400, 12) if ctx.tier == "quick" else (6000, 30)
+    n, maxlen = (400, 12) if ctx.tier == "quick" else (4000, 30)
     if ctx.replay:
         cases = [json.load(open(ctx.replay))["replay"]["case"]]
     else:
